@@ -407,18 +407,51 @@ class EnumGen:
 
     # -- bit-flag enums (C14) -----------------------------------------------------------------
     def bits(self, shape="wf", feature=None):
+        """one -bit enum; shape wf (the grammar), odd (one value that is no union of declared bits), overlap (arbitrary
+        overlapping values), signbit (signed kind with a flag on the sign bit)"""
         for _ in range(400):
-            en = self._try_bits(shape, feature)
+            en = self._try_general_bits(shape, feature) if shape in ("overlap", "signbit") else self._try_bits(shape, feature)
             if en is None:
                 continue
             cl, decl = classify(en)
-            if cl != "wf":
+            if cl != ("neg" if shape == "signbit" else "wf"):
                 continue
             if (bit_shape(en, decl) == "wf") == (shape == "wf"):
                 en["feature"] = feature or "random"
                 en["shape"] = "bit-" + shape
                 return en
         raise core.InfraError("bit enum generator: cannot build a %s/%s enum" % (shape, feature))
+
+    def _try_general_bits(self, shape, feature):
+        rng = self.rng
+        T = rng.choice(["Perm", "Style", "Opt", "Mask", "Cap", "Fl", "Access"])
+        kinds = [k for k in KIND_NAMES if KINDS[k][0]] if shape == "signbit" else KIND_NAMES
+        kind = rng.choice(kinds)
+        sgn, nb = KINDS[kind]
+        lo, hi = krange(kind)
+        nxt, used = self.namer(T, rng.choice(["prefixed", "plain"]))
+        m = min(nb - (1 if sgn else 0), rng.choice([3, 4, 5, 6]))
+        vals = set()
+        if shape == "overlap":
+            for _ in range(rng.randint(3, 7)):
+                vals.add(rng.randint(1, (1 << m) - 1))
+            if all(v & (v - 1) == 0 for v in vals):
+                vals.add(3 if 3 not in vals else 7)
+        else:
+            for _ in range(rng.randint(1, 4)):
+                vals.add(1 << rng.randint(0, m - 1))
+            vals.add(lo)                                         # the sign bit alone
+            if rng.random() < 0.5:
+                vals.add(lo | rng.choice(sorted(v for v in vals if v > 0)))     # a composite with the sign bit
+            if rng.random() < 0.3:
+                vals.add(-1)
+        if rng.random() < 0.4:
+            vals.add(0)
+        order = sorted(vals)
+        if rng.random() < 0.5:
+            rng.shuffle(order)
+        specs = [{"names": [nxt()], "form": "t", "ty": T, "exprs": [(rng.choice(["lit", "hex"]), v)]} for v in order]
+        return {"T": T, "kind": kind, "files": [{"name": "a.go", "blocks": [{"paren": True, "specs": specs}]}], "aux": False}
 
     def _try_bits(self, shape, feature):
         rng = self.rng
